@@ -360,6 +360,9 @@ func C03(c *core.Ctx) {
 	c.Explain = "Round-trip equality quantifies over values and is NOT decided. Decided structural necessary condition: every TLV length field is written in the TL-number code (1/3/5/9 bytes with 0xfd/0xfe/0xff markers) and sized consistently. (R3.1 units) no value derived from len(..) or an EncodingLength() result is converted to enc.Nat and then sized/encoded — the NonNegativeInteger code (1/2/4/8, no marker) agrees with the TL code only below 253; checked by backward provenance of the receiver of every Nat.EncodingLength/EncodeInto/Bytes call in all non-test packages; (R3.2 tables) the threshold→size/marker tables of TLNum.EncodingLength, TLNum.EncodeInto, ParseTLNum, ReadTLNum and of Nat.EncodingLength, Nat.EncodeInto, ParseNat are extracted from the syntax tree and compared with the NDN TLV number codes; (R3.3) every size switch of every generated encoder (all zz_generated.go files, discovered by scanning) is one of the two canonical tables, the TL table wherever the subject is a length, and the subjects sized in Init are the subjects written in EncodeInto with the same table."
 	c.RuleText = "instances: every Nat method call site (receiver provenance), the 7 primitive functions, every switch statement over integer thresholds in every generated file. Non-trivial = a table with ≥1 row or a receiver with ≥1 provenance leaf."
 	p := c.P
+	defer c03SizedAsWritten(c)
+	defer c03ReaderBase(c)
+	defer c03EmptyNameAccepted(c)
 
 	// ---- R3.1 units
 	sl := &core.Slicer{P: p, Arith: true}
